@@ -117,6 +117,61 @@ func (c *vfCap) close() {
 	syscall.Close(c.fd)
 }
 
+// vfTun: a tun device (no hardware address: sx selects raw-IP "VPN" mode on it). Packets sx sends are read from the tun fd,
+// packets written to it arrive on the interface.
+type vfTun struct {
+	f      *os.File
+	mu     sync.Mutex
+	frames []vfFrame
+	t0     time.Time
+}
+
+func vfOpenTun(name string) (*vfTun, error) {
+	// the descriptor is handed to the runtime poller only after TUNSETIFF: registered earlier it never becomes readable
+	fd, err := syscall.Open("/dev/net/tun", syscall.O_RDWR|syscall.O_CLOEXEC, 0)
+	if err != nil {
+		return nil, err
+	}
+	var req [40]byte
+	copy(req[:15], name)
+	binary.LittleEndian.PutUint16(req[16:], 0x0001|0x1000) // IFF_TUN | IFF_NO_PI
+	if _, _, e := syscall.Syscall(syscall.SYS_IOCTL, uintptr(fd), uintptr(0x400454ca), uintptr(unsafe.Pointer(&req[0]))); e != 0 {
+		return nil, e
+	}
+	if err := syscall.SetNonblock(fd, true); err != nil {
+		return nil, err
+	}
+	f := os.NewFile(uintptr(fd), "/dev/net/tun")
+	t := &vfTun{f: f, t0: time.Now()}
+	go func() {
+		buf := make([]byte, 65536)
+		for {
+			n, err := f.Read(buf)
+			if err != nil {
+				return
+			}
+			b := make([]byte, n)
+			copy(b, buf[:n])
+			t.mu.Lock()
+			t.frames = append(t.frames, vfFrame{T: int(time.Since(t.t0) / time.Microsecond), Bytes: b})
+			t.mu.Unlock()
+		}
+	}()
+	return t, nil
+}
+
+func (t *vfTun) reset(t0 time.Time) {
+	t.mu.Lock()
+	t.frames, t.t0 = nil, t0
+	t.mu.Unlock()
+}
+func (t *vfTun) inject(b []byte) error { _, err := t.f.Write(b); return err }
+func (t *vfTun) snapshot() []vfFrame {
+	t.mu.Lock()
+	defer t.mu.Unlock()
+	return append([]vfFrame{}, t.frames...)
+}
+
 type vfWireInject struct {
 	Bytes      []int `json:"bytes"`
 	AfterProbe int   `json:"afterProbe"` // inject once this many probes were seen ...
@@ -135,6 +190,7 @@ type vfWireScen struct {
 	MaxMS       int            `json:"maxMs"`
 	Listen      []int          `json:"listen"` // loopback ports with an accepting TCP server (application scans)
 	Flood       []int          `json:"flood"`  // a frame injected continuously from before the start of sx until its first probe is seen
+	Dev         string         `json:"dev"`    // "tun": the wire is the tun device vft0 (raw-IP mode) instead of the veth
 }
 
 func vfIsProbe(b []byte, myMAC net.HardwareAddr) bool {
@@ -169,6 +225,10 @@ func TestVfWire(t *testing.T) {
 	must(vfIP("link", "set", "vfw1", "up"))
 	must(vfIP("link", "set", "vfw1", "arp", "off"))
 	myMAC, _ := net.ParseMAC("02:5a:00:00:00:01")
+	tun, err := vfOpenTun("vft0")
+	must(err)
+	must(vfIP("addr", "add", "10.8.0.1/16", "dev", "vft0"))
+	must(vfIP("link", "set", "vft0", "up"))
 	vfReadNDJSON(t, os.Getenv("VF_SCENARIOS"), func(raw json.RawMessage) {
 		var sc vfWireScen
 		if err := json.Unmarshal(raw, &sc); err != nil {
@@ -212,6 +272,15 @@ func TestVfWire(t *testing.T) {
 		}
 		capt, err := vfOpenCap("vfw1")
 		must(err)
+		useTun := sc.Dev == "tun"
+		isProbe := func(b []byte) bool { return vfIsProbe(b, myMAC) }
+		snapshot := capt.snapshot
+		injectFn := capt.inject
+		if useTun {
+			isProbe = func(b []byte) bool { return len(b) >= 20 && b[0]>>4 == 4 }
+			snapshot = tun.snapshot
+			injectFn = tun.inject
+		}
 		cmd := exec.Command(sx, args...)
 		var stdout, stderr bytes.Buffer
 		cmd.Stdout, cmd.Stderr = &stdout, &stderr
@@ -220,6 +289,7 @@ func TestVfWire(t *testing.T) {
 		}
 		t0 := time.Now()
 		capt.t0 = t0
+		tun.reset(t0)
 		floodStop := make(chan struct{})
 		floodN := 0
 		var floodWG sync.WaitGroup
@@ -237,7 +307,7 @@ func TestVfWire(t *testing.T) {
 						return
 					default:
 					}
-					if capt.inject(fb) == nil {
+					if injectFn(fb) == nil {
 						floodN++
 					}
 					time.Sleep(30 * time.Microsecond)
@@ -266,22 +336,22 @@ func TestVfWire(t *testing.T) {
 				break watch
 			case <-time.After(2 * time.Millisecond):
 			}
-			fr := capt.snapshot()
+			fr := snapshot()
 			np, lastT := 0, 0
 			for _, f := range fr {
-				if !f.Out && vfIsProbe(f.Bytes, myMAC) {
+				if !f.Out && isProbe(f.Bytes) {
 					np++
 					lastT = f.T
 				}
 			}
 			now := int(time.Since(t0) / time.Microsecond)
 			for i, in := range sc.Inject {
-				if !injected[i] && np >= in.AfterProbe && np > 0 && now >= lastTOf(fr, myMAC, in.AfterProbe)+in.DelayMS*1000 {
+				if !injected[i] && np >= in.AfterProbe && np > 0 && now >= lastTOf(fr, isProbe, in.AfterProbe)+in.DelayMS*1000 {
 					b := make([]byte, len(in.Bytes))
 					for j, x := range in.Bytes {
 						b[j] = byte(x)
 					}
-					if err := capt.inject(b); err == nil {
+					if err := injectFn(b); err == nil {
 						injected[i] = true
 						injectAt[i] = int(time.Since(t0) / time.Microsecond)
 					}
@@ -312,8 +382,11 @@ func TestVfWire(t *testing.T) {
 		}
 		floodWG.Wait()
 		time.Sleep(30 * time.Millisecond)
-		frames := capt.snapshot()
+		frames := snapshot()
 		drops := capt.drops()
+		if useTun {
+			drops = 0
+		}
 		capt.close()
 		for _, ln := range listeners {
 			ln.Close()
@@ -331,7 +404,7 @@ func TestVfWire(t *testing.T) {
 			if f.Out {
 				continue
 			}
-			if vfIsProbe(f.Bytes, myMAC) {
+			if isProbe(f.Bytes) {
 				probes = append(probes, map[string]interface{}{"t": f.T, "bytes": vfInts(f.Bytes)})
 			} else {
 				noise++
@@ -378,10 +451,10 @@ func TestVfWire(t *testing.T) {
 }
 
 // lastTOf: time of the n-th probe (1-based); of the last one if fewer were seen
-func lastTOf(fr []vfFrame, myMAC net.HardwareAddr, n int) int {
+func lastTOf(fr []vfFrame, isProbe func([]byte) bool, n int) int {
 	k, t := 0, 0
 	for _, f := range fr {
-		if !f.Out && vfIsProbe(f.Bytes, myMAC) {
+		if !f.Out && isProbe(f.Bytes) {
 			k++
 			t = f.T
 			if k == n {
